@@ -144,3 +144,47 @@ package node
 //@   props C20
 //@   ensures [in_range] result.1 == nil ==> min <= result.0 && result.0 <= max
 //@   ensures [rejects] result.1 != nil ==> result.0 == 0
+
+// ---------------------------------------------------------------------------------------------
+// C18: event publication fan-out. evSent(p) counts the event messages handed to the local
+// process p by sendEventMessage (ghost counter).
+
+//@ ghostheap evSent(p gen.PID) int
+//@ ghostheap lastConsumers() []gen.PID
+
+//@ func (n *node) isRunning
+//@   inline
+
+//@ func (n *node) sendEventMessage
+//@   trusted
+//@   modifies evSent(to)
+//@   ensures evSent(to) == old(evSent(to)) + 1
+
+//@ iface gen.TargetManager.GetConsumersForTarget
+//@   modifies lastConsumers()
+//@   ensures lastConsumers() == result
+
+//@ iface lib.QueueMPSC.Push
+//@ iface gen.Connection.SendEvent
+//@ func (n *network) Connection
+//@   trusted
+//@ func (l *log) Trace
+//@   trusted
+//@ func (l *log) Error
+//@   trusted
+
+//@ spec func eventsWF(n *node) bool = forall k any :: smHas(n.events, k) ==> typeis(smVal(n.events, k), *eventOwner) && smVal(n.events, k).(*eventOwner) != nil
+
+//@ func (n *node) RouteSendEvent
+//@   props C18
+//@   mode int
+//@   may_panic
+//@   requires [events_wf] eventsWF(n)
+//@   loop 1 invariant [idx] -1 <= rangeindex && rangeindex < len(consumers) && consumers == lastConsumers()
+//@   loop 1 invariant [delivered_nonnil] delivered != nil
+//@   loop 1 invariant [once_so_far] forall p gen.PID :: evSent(p) == old(evSent(p)) + (delivered[p] ? 1 : 0)
+//@   loop 1 invariant [listed_are_delivered] forall i int :: 0 <= i && i <= rangeindex && consumers[i].Node == n.name ==> delivered[consumers[i]]
+//@   ensures [at_most_once] forall p gen.PID :: evSent(p) <= old(evSent(p)) + 1
+//@   ensures [every_local_subscriber] result == nil ==> forall i int, p gen.PID :: 0 <= i && i < len(lastConsumers()) && lastConsumers()[i] == p && p.Node == n.name ==> evSent(p) == old(evSent(p)) + 1
+//@   ensures [token_gate] n.creation > 0 && from.Node == n.name && (!smHas(n.events, any(message.Event)) || smVal(n.events, any(message.Event)).(*eventOwner).token != token) ==> result != nil
+//@   ensures [refused_publishes_nothing] result != nil ==> forall p gen.PID :: evSent(p) == old(evSent(p))
